@@ -137,6 +137,14 @@ func cmdRun(args []string) {
 	fmt.Fprintf(os.Stderr, "loaded in %v\n", time.Since(t0))
 	res := g.Explore(*h, params, *workers, time.Now().Add(time.Duration(*tmo)*time.Second), 8)
 	printResult(res, *verbose)
+	if *verbose {
+		var ks []string
+		for k, v := range g.fnCount {
+			ks = append(ks, fmt.Sprintf("%s=%d", k, v))
+		}
+		sort.Strings(ks)
+		fmt.Println("  counters:", strings.Join(ks, " "))
+	}
 }
 
 func printResult(res *HarnessResult, verbose bool) {
